@@ -704,6 +704,21 @@ func reuseLines(w *bufio.Writer, r *Rng, k int) {
 			fmt.Fprintf(w, "R %d %s 0 -1 0 s r:%d s R:%s s r:10 s r:%d s R:%s s\n", r.Pick([]int{1, 2}), szf, len(szc)+10, b, blen+10, szf)
 			fmt.Fprintf(w, "R 1 %s 0 -1 0 wt:-1 s R:%s s wt:-1 s\n", szf, b)
 		}
+		// a frame with dependent blocks, then (Reset) one with independent blocks in which a match reaches back
+		// before the start of its block: there is nothing there for an independent block, whatever was read before
+		{
+			dc := genContent(r.Pick([]int{1, 3, 5}), r.Intn(1000), 20000+r.Intn(100000))
+			df, _ := buildFrame(dc, frameOpts{bsCode: 4, blockSize: 4096 + r.Intn(60000), dep: true, cc: true, size: -1}, r)
+			desc := []byte{1<<6 | 1<<5, 4 << 4} // independent blocks, no checksums
+			bad := append(le32b(0x184D2204), desc...)
+			bad = append(bad, byte(refXXH32(desc)>>8))
+			off := 50 + r.Intn(3000)
+			payload := []byte{0x40, 'a', 'b', 'c', 'd', byte(off), byte(off >> 8), 0x50, 'h', 'e', 'l', 'l', 'o'}
+			bad = append(bad, le32b(uint32(len(payload)))...)
+			bad = append(bad, payload...)
+			bad = append(bad, 0, 0, 0, 0)
+			fmt.Fprintf(w, "R %d %s 0 -1 0 wt:-1 R:%s %s X:shortbuf\n", r.Pick([]int{1, 2}), saveBlob("depfirst", df), saveBlob("staledict", bad), []string{"wt:-1", "r:100 r:9"}[r.Intn(2)])
+		}
 		// the Reader delivered exactly S bytes; the next stream is a legacy frame whose first block is S bytes
 		// long (and cut short): the count kept for the legacy trailer must start from zero again
 		{
@@ -1062,6 +1077,32 @@ func genFRHostile(w *bufio.Writer, thorough bool, r *Rng) {
 		for _, conc := range []int{1, 2, 4} {
 			fmt.Fprintf(w, "R %d %s 0 -1 0 %s X:shortbuf\n", conc, ref, ops())
 		}
+	}
+	// many megabyte-sized dependent blocks from a small input (each block: one literal, a match of a megabyte,
+	// five literals): the history kept for dependent blocks must stay a window, not the whole stream
+	{
+		var fr bytes.Buffer
+		desc := []byte{1<<6 | 1<<2, 6 << 4} // version 1, dependent blocks, content checksum; 1 MiB blocks
+		fr.Write(le32b(0x184D2204))
+		fr.Write(desc)
+		fr.WriteByte(byte(refXXH32(desc) >> 8))
+		blk := []byte{0x1F, 0x00, 0x01, 0x00}
+		for k := 0; k < 4111; k++ {
+			blk = append(blk, 0xFF)
+		}
+		blk = append(blk, 246, 0x50, 0, 0, 0, 0, 0)
+		nb := 64
+		if thorough {
+			nb = 96
+		}
+		for k := 0; k < nb; k++ {
+			fr.Write(le32b(uint32(len(blk))))
+			fr.Write(blk)
+		}
+		fr.Write(le32b(0))
+		fr.Write(le32b(refXXH32(make([]byte, nb<<20))))
+		ref := saveBlob("bigdep", fr.Bytes())
+		fmt.Fprintf(w, "R %d %s %d -1 0 wd r:9\n", r.Pick([]int{1, 4}), ref, r.Pick([]int{0, 4096}))
 	}
 	// a Reader that meets hostile input after it was used for something else
 	reuseLines(w, r, 3)
